@@ -1,7 +1,7 @@
 """Which rules decide which property."""
 from __future__ import annotations
 
-from .rules import frag, c01, c02, c03, c11, c18, c19
+from .rules import frag, c01, c02, c03, c11, c18, c19, c20
 
 ASSUME = [
     'stdlib ast and re._parser front ends are correct',
@@ -96,6 +96,18 @@ PROPERTIES = {
             ('C19-R3', c19.rule_per_call_objects, 'quick'),
             ('C19-R4', c19.rule_immutability, 'quick'),
             ('C19-R5', c19.rule_glob_instance_state, 'quick'),
+        ],
+    },
+    'C20': {
+        'explanation': 'static analysis of /repo/wcmatch: roles of the decoder regex groups derived from their language and '
+                       'compared with the group numbers the callback reads (decision table of `norm`), control dependence of '
+                       'every decoding expression on RAWCHARS, translation table, normalise-before-expand reaching definitions',
+        'assumptions': ASSUME,
+        'rules': [
+            ('C20-R1', c20.rule_decoder_roles, 'quick'),
+            ('C20-R2', c20.rule_decode_only_raw, 'quick'),
+            ('C20-R3', c20.rule_translation_table, 'quick'),
+            ('C20-R4', c20.rule_normalise_before_expand, 'quick'),
         ],
     },
 }
